@@ -472,6 +472,9 @@ class ttensor:
         if np.prod(self.shape) > np.prod(self.core.shape):
             V = []
             for factor in self.factor_matrices:
+                # In floating point: Gram matrices of factors held in a narrow
+                # integer dtype (and the products below) wrap around
+                factor = factor.astype(float)  # noqa: PLW2901
                 V.append(factor.transpose().dot(factor))
             Y = self.core.ttm(V)
             tmp = Y.innerprod(self.core)
